@@ -151,10 +151,23 @@ def main(pid: str, path: str) -> int:
     from .scenarios import job
 
     doc = json.load(open(path))
+    if str(doc.get("kind", "")).startswith("progress-"):
+        from . import check_progress
+
+        return check_progress.replay_doc(pid, doc, path)
     prog = doc["program"]
     refs = ec.references([prog])
     ref = refs[prog["name"]]
     props = [doc["formula"]] if doc.get("formula") else []
+    if doc["kind"] == "oracle":
+        o = ref["oracle"]
+        bad = o["Ref"]["wf"] != o["Ideal"]["wf"] or any(o["Ref"]["st"].get(s) != o["Ideal"]["st"].get(s)
+                                                         for s in o["Ref"]["st"] if s not in o["Racy"])
+        print("in-order run", o["Ref"], "declarative outcome", o["Ideal"], "schedule-dependent stages", sorted(o["Racy"]))
+        if bad:
+            print(f"VIOLATION property={pid} replay={path}")
+            return 1
+        return 0
     if doc["kind"] == "model":
         res = confirm_on_code(prog, ref, doc["config"]["consts"], doc["formula"], doc["formula"] in CE.ACTIONS, props,
                               doc["config"].get("depth", 400))
